@@ -433,6 +433,35 @@ pub unsafe fn do_exec<F: PreExec>(
     e.into()
 }
 
+/// Ends the process when dropped, the spawned child holds one so that not even an unwinding
+/// panic gets it back into the caller's code.
+struct ExitOnDrop<'a>(&'a core::cell::Cell<RawFd>);
+
+impl Drop for ExitOnDrop<'_> {
+    fn drop(&mut self) {
+        report_failed_step(self.0.get(), 0);
+        rusl::process::exit(1)
+    }
+}
+
+const CLOEXEC_MSG_FOOTER: [u8; 4] = *b"NOEX";
+
+/// Tells the parent, through the pipe that exec would have closed, that a step failed with `code`
+fn report_failed_step(write_pipe: RawFd, code: i32) {
+    let code = code.to_be_bytes();
+    let bytes = [
+        code[0],
+        code[1],
+        code[2],
+        code[3],
+        CLOEXEC_MSG_FOOTER[0],
+        CLOEXEC_MSG_FOOTER[1],
+        CLOEXEC_MSG_FOOTER[2],
+        CLOEXEC_MSG_FOOTER[3],
+    ];
+    let _ = rusl::unistd::write(write_pipe, &bytes);
+}
+
 /// Gives back `fd` if it isn't one of the standard streams' numbers, otherwise a duplicate that isn't.
 #[inline]
 fn above_std_streams(fd: RawFd) -> Result<RawFd> {
@@ -462,7 +491,6 @@ unsafe fn do_spawn<F: PreExec>(
     gid: Option<GidT>,
     pgroup: Option<PidT>,
 ) -> Result<Child> {
-    const CLOEXEC_MSG_FOOTER: [u8; 4] = *b"NOEX";
     let (ours, theirs) = setup_io(default_stdio, needs_stdin, stdin, stdout, stderr)?;
     let sync_pipe = rusl::unistd::pipe2(OpenFlags::O_CLOEXEC)?;
     let (read_pipe, write_pipe) = (sync_pipe.in_pipe, sync_pipe.out_pipe);
@@ -474,13 +502,15 @@ unsafe fn do_spawn<F: PreExec>(
     if child_pid == 0 {
         // Executing as child process
         drop(read_guard);
-        let mut write_pipe = write_pipe;
+        let write_pipe = core::cell::Cell::new(write_pipe);
         // Nothing may return from here, that would run the caller's code in the child.
         // A step that fails is reported to the parent through the pipe, like a failed exec.
+        // That goes for a pre-exec closure that panics as well, if panics unwind this stops it here.
+        let no_way_out = ExitOnDrop(&write_pipe);
         let setup: Result<()> = (|| {
             // If the caller had closed a standard stream, a descriptor that's still needed here
             // can sit on 0..=2, where a `dup2` onto that number would replace it, move those up.
-            write_pipe = above_std_streams(write_pipe)?;
+            write_pipe.set(above_std_streams(write_pipe.get())?);
             let targets = [STDIN, STDOUT, STDERR];
             let mut sources = [theirs.stdin.fd(), theirs.stdout.fd(), theirs.stderr.fd()];
             for (source, target) in sources.iter_mut().zip(targets) {
@@ -529,22 +559,13 @@ unsafe fn do_spawn<F: PreExec>(
             Err(e) => e,
         };
         // An error without an errno (a pre-exec closure can return one) is reported as code 0
-        let code: [u8; 4] = if let Error::Os { code, .. } = e {
-            code.raw().to_be_bytes()
+        let code = if let Error::Os { code, .. } = e {
+            code.raw()
         } else {
-            0i32.to_be_bytes()
+            0
         };
-        let bytes = [
-            code[0],
-            code[1],
-            code[2],
-            code[3],
-            CLOEXEC_MSG_FOOTER[0],
-            CLOEXEC_MSG_FOOTER[1],
-            CLOEXEC_MSG_FOOTER[2],
-            CLOEXEC_MSG_FOOTER[3],
-        ];
-        let _ = rusl::unistd::write(write_pipe, &bytes);
+        report_failed_step(write_pipe.get(), code);
+        core::mem::forget(no_way_out);
         rusl::process::exit(1);
     }
     drop(write_guard);
